@@ -123,7 +123,7 @@ pub struct Gen {
   pub cfg: Cfg,
   orig_names: HashMap<Vec<u8>, usize>,
   /// per program: does file i carry content?
-  with_content: [bool; 3],
+  pub with_content: [bool; 3],
   next_cid: u64,
 }
 
@@ -498,7 +498,7 @@ pub fn generate(kind: &str, seed: u64, count: usize, out: &str) {
     "stream_any" | "views" => Cfg::any(),
     "replace_hist" => Cfg { depth: 1, wild_maps: false, ..Cfg::any() },
     "orig_trees" => Cfg { sms: false, cached_under_replace: false, depth: 4, max_text: 30, ..Cfg::ascii() },
-    "laws" | "concat_children" | "replace_inner" | "sms_leaf" => Cfg { depth: 2, ..Cfg::ascii() },
+    "laws" | "concat_children" | "replace_inner" | "sms_leaf" | "combined" => Cfg { depth: 2, ..Cfg::ascii() },
     _ => Cfg::ascii(),
   };
   let mut g = Gen::new(seed, cfg);
@@ -564,6 +564,70 @@ pub fn generate(kind: &str, seed: u64, count: usize, out: &str) {
         steps.push(json!({"op": "build", "dst": 1, "tree": rhs}));
         steps.extend(obs_all(1));
         steps.push(json!({"op": "law", "law": "same", "a": 0, "b": 1}));
+      }
+      "combined" => {
+        // SourceMapSource with an inner source map
+        let t = g.text(24);
+        let x = loop {
+          let x = g.text(24);
+          if !x.is_empty() {
+            break x;
+          }
+        };
+        let n_other = g.rng.gen_range(0..=2usize);
+        let inner_at = g.rng.gen_range(0..=n_other);
+        let ns = n_other + 1;
+        let nn = g.rng.gen_range(0..=2usize);
+        // outer segments: originals that point into the inner source lie on
+        // characters of x, the others anywhere
+        let xlines = Gen::lines_of(&x);
+        let mut osegs = g.segs_for(&t, ns, nn, false);
+        for sg in osegs.iter_mut() {
+          if sg.2 == inner_at as i64 {
+            let li = g.rng.gen_range(0..xlines.len() + 1);
+            if li < xlines.len() {
+              sg.3 = (li + 1) as i64;
+              sg.4 = g.rng.gen_range(0..xlines[li].len()) as i64;
+            } else {
+              sg.3 = (xlines.len() + 1) as i64;
+              sg.4 = 0;
+            }
+          }
+        }
+        let with_osrc = g.rng.gen_bool(0.5);
+        let content_too = g.rng.gen_bool(0.5);
+        let mut sources = vec![];
+        let mut contents = vec![];
+        let mut k = 0;
+        for i in 0..ns {
+          if i == inner_at {
+            sources.push(bytes_json(b"i.js"));
+            contents.push(if !with_osrc || content_too { bytes_json(x.as_bytes()) } else { bytes_json(b"") });
+          } else {
+            sources.push(bytes_json(FILES[k].as_bytes()));
+            contents.push(bytes_json(CONTENTS[k].as_bytes()));
+            k += 1;
+          }
+        }
+        let onames: Vec<Value> = (0..nn).map(|i| bytes_json(["aa", "x", "n1"][i].as_bytes())).collect();
+        let outer = json!({"m": bytes_json(&encode_segs(&osegs)), "sources": sources, "contents": contents,
+                           "names": onames, "root": [], "file": [], "dbg": []});
+        let ins = g.rng.gen_range(1..=3usize);
+        let inn = g.rng.gen_range(0..=2usize);
+        let isegs = g.segs_for(&x, ins, inn, false);
+        for i in 0..3 {
+          g.with_content[i] = true;
+        }
+        let first = g.rng.gen_range(0..3);
+        let mut inner = g.map_json(&isegs, ins, inn, first);
+        inner["root"] = json!([]);
+        let tree = json!({"k": "sms", "b": bytes_json(t.as_bytes()), "name": bytes_json(b"i.js"),
+                          "map": outer, "inner": [inner],
+                          "osrc": if with_osrc { vec![bytes_json(x.as_bytes())] } else { vec![] },
+                          "remove": g.rng.gen_bool(0.3)});
+        steps = vec![json!({"op": "build", "dst": 0, "tree": tree}), obs("source", 0),
+                     map(0, true), map(0, false), stream(0, true, false), stream(0, false, false),
+                     stream(0, true, true), stream(0, false, true)];
       }
       "sms_leaf" => {
         // one map-carrying leaf, served by SourceMapSource and by the
